@@ -294,7 +294,10 @@ def harnesses(tier, seed):
         for alpha in ALPHABETS:
             n = 4 if th else 3
             h = zlib.crc32((name + alpha).encode()) + seed
-            if th:
+            if th and alpha == "writes" and name in ("rec2", "empty"):
+                # everything symbolic for the basic alphabet on two schemas; the other thorough harnesses deepen the
+                # history (4 operations) with the quick tier's choice of the remaining dimensions - all of them symbolic
+                # at length 4 did not finish (25 of 26 harnesses "Not confirmed" in 400 s each)
                 call = "ob_history(C, ops, si, validator, ci, di)"
                 ps = "ops: List[int], si: int, validator: bool, ci: int, di: int"
             elif alpha == "append" and name not in ("empty", "nullint"):
@@ -312,8 +315,8 @@ def harnesses(tier, seed):
             hs.append(Harness(f"history.{name}.{alpha}", "props.l7", ps, call + "[0]", replay_call=call,
                               setup=f"C = case({name!r}, {n}, {alpha!r})",
                               what=f"operation history on {name} ({alpha})",
-                              samples=[([0, 1, 2], 1) + ((False, 0, 1) if th else ((3,) if "ci: int" in ps else ((True,) if "validator: bool" in ps else ()))),
-                                       ([1, 0, 3], 100) + ((True, 1, 0) if th else ((1,) if "ci: int" in ps else ((False,) if "validator: bool" in ps else ()))),
-                                       ([2, 4, 0], 7) + ((False, 2, 2) if th else ((2,) if "ci: int" in ps else ((True,) if "validator: bool" in ps else ())))],
+                              samples=[([0, 1, 2], 1) + ((False, 0, 1) if "di: int" in ps else ((3,) if "ci: int" in ps else ((True,) if "validator: bool" in ps else ()))),
+                                       ([1, 0, 3], 100) + ((True, 1, 0) if "di: int" in ps else ((1,) if "ci: int" in ps else ((False,) if "validator: bool" in ps else ()))),
+                                       ([2, 4, 0], 7) + ((False, 2, 2) if "di: int" in ps else ((2,) if "ci: int" in ps else ((True,) if "validator: bool" in ps else ())))],
                               key=lambda a, k, nm=name, al=alpha: f"history:{nm}:{al}:" + ",".join(str(o) for o in a[0])))
     return hs
